@@ -602,7 +602,7 @@ func c19R2(p *core.Program, r *core.Report) {
 			for _, op := range in.Operands(nil) {
 				if s, isC := core.ConstString(*op); isC && strings.HasPrefix(s, "tel") {
 					nTel++
-					if policyEdge(in.Block()) != -1 {
+					if policyEdge(in.Block()) != -1 && !c19UnderNonEmptyFromUnredacted(in.Block()) {
 						ok = false
 					}
 				}
@@ -692,4 +692,41 @@ func c19R5(p *core.Program, r *core.Report) {
 	})
 	r.Check(marshals >= 2 || (field && getter), "R5", "environment.Equal/sees-redaction-policy", p.Pos(eq.Pos()), map[bool]string{true: "compares the marshalled environments", false: "reads the redaction policy of both"}[marshals >= 2],
 		"environment.Equal does not look at the redaction policy: a resume whose environment differs only in the policy counts as unchanged, so where the new environment is installed only when it differs (or announced only then) the session keeps evaluating under the old policy")
+}
+
+// c19UnderNonEmptyFromUnredacted: block b runs only where a string X is non-empty, X being a variable that receives a
+// non-constant value only over the non-redacting edge of a policy test (it is "" otherwise).
+func c19UnderNonEmptyFromUnredacted(b *ssa.BasicBlock) bool {
+	for _, ce := range core.ControllingConds(b) {
+		bo, ok := ce.Cond.(*ssa.BinOp)
+		if !ok || (bo.Op != token.NEQ && bo.Op != token.EQL) {
+			continue
+		}
+		var x ssa.Value
+		if sc, isC := core.ConstString(bo.Y); isC && sc == "" {
+			x = bo.X
+		} else if sc, isC := core.ConstString(bo.X); isC && sc == "" {
+			x = bo.Y
+		}
+		if x == nil || (bo.Op == token.NEQ) != ce.Taken {
+			continue
+		}
+		phi, ok := x.(*ssa.Phi)
+		if !ok {
+			continue
+		}
+		all := true
+		for i, e := range phi.Edges {
+			if sc, isC := core.ConstString(e); isC && sc == "" {
+				continue
+			}
+			if policyEdgeInto(phi.Block().Preds[i], phi.Block()) != -1 {
+				all = false
+			}
+		}
+		if all {
+			return true
+		}
+	}
+	return false
 }
